@@ -38,18 +38,29 @@
 //!  (c) behaviour(T2) == behaviour(T1), approximated by the SUFFICIENT condition that TmplGroup's generated code
 //!      for T1 and T2 is textually identical (the mangled round trip is compared with the code of T1 as well:
 //!      the generated code never contains scope names).
+//!      Both codes are first passed through `canon` (see there): a constant string written as `{{ 'a' }}` and as
+//!      static text differ only in the update guard and a to-string wrapper.
 //! A panic anywhere is reported as found.
 //!
-//! NOT COVERED / DELIBERATELY NARROWED (every item was observed to fail on the unmodified compiler; see KNOWN):
-//!  K1 static text that contains `{{` after entity decoding (`&#123;{x}}`) - printed raw, re-parsed as a binding.
-//!     GENUINE, named in the property text.  Not enumerated.
-//!  K2 a user-written top-level `+` chain with a string literal operand (`{{ 'a' + b }}`, `{{ a + 1 + 'x' }}`) is
-//!     printed as mixed text `a{{b}}`, which re-parses with a to-string wrapper: null/undefined render differently.
-//!     GENUINE, named in the property text.  Not enumerated (string literals stay enumerated everywhere else).
-//!  K3 a value that is only a string literal (`{{ 'a' }}`) is printed as static text.  For non-blank literals only
-//!     the update guard differs (the constant is re-applied) - irrelevant, family dropped.  For a BLANK literal in
-//!     a text node (`<view>{{ ' ' }}</view>`) it is GENUINE: the printed blank text is dropped by the parser
-//!     (rendering loses the space) and oracle (a) fails too (`<view> </view>` -> `<view/>`).  Not enumerated.
+//! REPAIRED, NOW ENUMERATED (found by this unit on 3a0d4a2, fixed up to f442e10; the former KNOWN inputs are in REPAIRED):
+//!  K1 static text that contains `{{` after entity decoding (`&#123;{x}}`): repaired by fix commit 294b1de (runs of
+//!     >= 2 `{` are printed as `&#123;`), now enumerated in text and attribute values.  Residual: K11.
+//!  K2 user-written `+` chains with a string literal operand (`{{ 'a' + b }}`): repaired by 540108e (only parser-built
+//!     mixed text is split), now enumerated in every value position.  Not enumerated: chains of string literals ONLY
+//!     (`{{ 'a' + 'b' }}`), still printed as the static text `ab` - constant folding, irrelevant.
+//!  K3 a value that is only a BLANK string literal (`<view>{{ ' ' }}</view>`): repaired by 6525a06 (stays `{{" "}}`), now
+//!     enumerated in every value position.  Non-blank whole-value literals (`{{ 'a' }}`) are still printed as static
+//!     text, which is fine; they are enumerated in text and in the attribute positions LIT_POSITIONS (see LIT_VALUES
+//!     for the positions that are dropped and why).  Residual: K3r.
+//!  K7 comment-only `<template name>`: repaired by f442e10 (printed self-closing), narrowing removed.
+//!  K9 member access on a number literal (`{{ (1).a }}`): repaired by 3d6b8a3 (parentheses kept), now enumerated together
+//!     with index / call on number literals.
+//!
+//! NOT COVERED / DELIBERATELY NARROWED (every item fails on the compiler at f442e10; see KNOWN, which gives for each input
+//! whether VX_STRFYRT_STRICT=1 is needed to see it fail):
+//!  K3r a value that is only the EMPTY string literal (`<view>{{ '' }}</view>`, `<view id="{{ '' }}"/>`) is printed as empty
+//!     text (pinned by an existing unit test): the text node disappears, resp. `id=""` re-prints as `id` (oracle (a)).
+//!     Minor.  Not enumerated (`x{{ '' }}y` and `''` inside larger expressions are).
 //!  K4 with mangling, wx:for prints the ORIGINAL item/index names (or omits the default ones) in the attributes but
 //!     the mangled names in the body (`<block wx:for="{{l}}">{{_$0}}</block>`), so the re-parsed body refers to
 //!     data fields.  GENUINE.  Narrowing: oracle (c) of the mangled round trip is skipped when T1 contains a
@@ -59,19 +70,15 @@
 //!  K6 sibling text nodes separated only by a comment or an ignored stray end tag (`x<!-- c -->y`, `x</view>y`)
 //!     are printed adjacently and re-parse as ONE text node.  Same text content, different node structure
 //!     (low severity).  Narrowing: oracle (c) is skipped when T1 has adjacent text siblings (comments ignored).
-//!  K7 a `<template name>` whose content is only comments (`<template name="t"><!-- c --></template>`) is printed as
-//!     `<template name="t"></template>`, whose re-parse prints `<template name="t"/>`: oracle (a) fails.  GENUINE
-//!     (cosmetic).  Narrowing: oracle (a) is skipped when T1 has a comment-only sub-template.
 //!  K8 `data-` with nothing after the dash (`<view data-="d"/>`) is kept as a data attribute with an EMPTY name and
 //!     printed as `data:="d"`, which re-parses with the Warn-level "invalid attribute prefix".  GENUINE (minor).
 //!     Narrowing: inputs whose T1 has a data attribute with an empty name are skipped altogether.
-//!  K9 member access on a number literal (`{{ (1).a }}`, `{{ 1 .a }}`, `{{ (1.5).a }}`) is printed without the
-//!     parentheses (`1.a`, `1.5.a`), which re-parses with the Fatal "unexpected character inside expression": oracle
-//!     (b) fails.  GENUINE.  Not enumerated (the unparenthesised spellings `1.5.a`, `1..a`, which the parser rejects
-//!     in the first place, are).
-//!  K10 an UNQUOTED static `data` value on `<template is>` (`<template is="t" data=v/>`, ill-formed) is kept and printed
-//!     as `data="v"`; the quoted spelling is dropped by the parser (Note), so the second print loses it: oracle (a)
-//!     fails.  GENUINE (minor, ill-formed input only).  Not enumerated (that one name/value combination is skipped).
+//!  K10 a `data` value on `<template is>` that is static text or printed as static text (unquoted `data=v`, ill-formed;
+//!     `data="{{ 'x' }}"`) is printed as `data="v"`, which the parser drops (Note), so the second print loses it: oracle
+//!     (a) fails.  GENUINE (minor).  Not enumerated (these name/value combinations are skipped).
+//!  K11 (residual of K1) a static piece ENDING in a single `{` directly followed by a binding (`a&#123;{{b}}`) is printed
+//!     as `a{{{b}}`, which re-parses with the Fatal "missing expression end": oracle (b) fails.  A lone trailing `{`
+//!     printed raw is pinned by an existing unit test.  GENUINE.  Not enumerated.
 //!  The number of inputs hit by each narrowing is printed in the `bound` field.
 //!  Also not covered: behaviour is never executed (no JS runtime here) - (c) can only say "identical code";
 //!  dev-mode code, source maps / locations (C16), templates deeper than 3 levels, attribute values / expressions
@@ -79,7 +86,7 @@
 //!
 //! Environment: VX_STRFYRT_ALL=1 keeps going after a finding and lists every failing input on stderr;
 //! VX_STRFYRT_KNOWN=1 additionally enumerates the KNOWN inputs (then `search` reports the first of them);
-//! VX_STRFYRT_STRICT=1 switches the narrowings K4, K6, K7, K8 off (search and run), to reproduce those findings.
+//! VX_STRFYRT_STRICT=1 switches the narrowings K4, K6, K8 off (search and run), to reproduce those findings.
 use crate::Outcome;
 use glass_easel_template_compiler::parse::tag::{ElementKind, Node};
 use glass_easel_template_compiler::parse::{ParseError, ParseErrorLevel};
@@ -110,6 +117,34 @@ fn gen_code(g: &TmplGroup) -> String {
 fn above_note(d: &[ParseError]) -> Vec<String> {
     d.iter().filter(|e| e.level() > ParseErrorLevel::Note).map(|e| e.to_string()).collect()
 }
+/// Generated code modulo the two differences between a constant string written as `{{ 'a' }}` and as static text `a`
+/// (the printer may turn the former into the latter): a value without data dependencies is guarded by
+/// `C||K||undefined` (re-applied when the whole data changes - idempotent for a constant) where static text is
+/// guarded by `C`, and a text-node expression is wrapped in the to-string helper `Y(...)`, the identity on a
+/// string literal.  So: `C||K||undefined` -> `C`, `Y("lit")` -> `"lit"`.
+fn canon(code: &str) -> String {
+    let s = code.replace("C||K||undefined", "C");
+    let b = s.as_bytes();
+    let mut out = String::with_capacity(s.len());
+    let mut i = 0;
+    while let Some(k) = s[i..].find("Y(\"") {
+        let at = i + k;
+        let ident_before = at > 0 && (b[at - 1].is_ascii_alphanumeric() || b[at - 1] == b'_' || b[at - 1] == b'$' || b[at - 1] == b'.');
+        let mut j = at + 3; // just after the opening quote
+        while j < b.len() && b[j] != b'"' { if b[j] == b'\\' { j += 1; } j += 1; }
+        if !ident_before && j + 1 < b.len() && b[j + 1] == b')' {
+            out.push_str(&s[i..at]);
+            out.push_str(&s[at + 2..=j]);
+            i = j + 2;
+        } else {
+            out.push_str(&s[i..at + 3]);
+            i = at + 3;
+        }
+    }
+    out.push_str(&s[i..]);
+    out
+}
+
 /// the neighbourhood of the first difference of two generated codes
 fn first_diff(got: &str, want: &str) -> String {
     let n = got.bytes().zip(want.bytes()).take_while(|(x, y)| x == y).count();
@@ -122,12 +157,12 @@ fn first_diff(got: &str, want: &str) -> String {
     format!("re-parsed: ...{}...  original: ...{}...", cut(got), cut(want))
 }
 
-/// VX_STRFYRT_STRICT=1 switches the narrowings K4, K6, K7, K8 off (to reproduce those findings)
+/// VX_STRFYRT_STRICT=1 switches the narrowings K4, K6, K8 off (to reproduce those findings)
 fn strict() -> bool { std::env::var_os("VX_STRFYRT_STRICT").is_some() }
 
 /// properties of T1 = parse(t) that narrow oracle (c) (K4, K6 in the header)
 #[derive(Default)]
-struct Shape { has_for: bool, adjacent_text: bool, comment_only_def: bool, empty_data_name: bool }
+struct Shape { has_for: bool, adjacent_text: bool, empty_data_name: bool }
 fn scan(nodes: &[Node], s: &mut Shape) {
     let mut prev_text = false;
     for n in nodes {
@@ -155,7 +190,7 @@ fn scan(nodes: &[Node], s: &mut Shape) {
 }
 
 /// (None, shape) = the property holds on `src`; (Some((observed, expected)), shape) otherwise.
-/// `shape` says which narrowings (K4, K6, K7, K8) applied to this input.
+/// `shape` says which narrowings (K4, K6, K8) applied to this input.
 fn check(src: &str) -> (Option<(String, String)>, Shape) {
     let mut g1 = TmplGroup::new();
     let _ = g1.add_tmpl(PATH, src); // the input may be ill-formed: its own diagnostics are not constrained
@@ -163,16 +198,13 @@ fn check(src: &str) -> (Option<(String, String)>, Shape) {
     {
         let t1 = g1.get_tree(PATH).expect("the tree was just added");
         scan(&t1.content, &mut shape);
-        for sub in t1.globals.sub_templates.iter() {
-            scan(&sub.content, &mut shape);
-            if !sub.content.is_empty() && sub.content.iter().all(|n| matches!(n, Node::Comment(_))) { shape.comment_only_def = true; }
-        }
+        for sub in t1.globals.sub_templates.iter() { scan(&sub.content, &mut shape); }
     }
     if strict() { shape = Shape::default(); }
     if shape.empty_data_name { return (None, shape); } // K8
     let plain = g1.stringify_tmpl(PATH).expect("the tree was just added");
     let mangled = print_with(&g1, true);
-    let code1 = gen_code(&g1);
+    let code1 = canon(&gen_code(&g1));
     for (label, p1, mangling) in [("plain", &plain, false), ("mangled", &mangled, true)] {
         let mut g2 = TmplGroup::new();
         let diag = g2.add_tmpl(PATH, p1);
@@ -181,22 +213,20 @@ fn check(src: &str) -> (Option<(String, String)>, Shape) {
         if !bad.is_empty() {
             return (Some((format!("[{}] printed text {:?} re-parses with {:?}", label, p1, bad), "no diagnostics above Note level".into())), shape);
         }
-        // (a), not under K7
-        if !shape.comment_only_def {
-            let p2 = print_with(&g2, mangling);
+        // (a)
+        let p2 = print_with(&g2, mangling);
+        if &p2 != p1 {
+            return (Some((format!("[{}] not a fixpoint: first print {:?}, second print {:?}", label, p1, p2), "second print == first print".into())), shape);
+        }
+        if mangling {
+            let p2 = print_with(&g2, false);
             if &p2 != p1 {
-                return (Some((format!("[{}] not a fixpoint: first print {:?}, second print {:?}", label, p1, p2), "second print == first print".into())), shape);
-            }
-            if mangling {
-                let p2 = print_with(&g2, false);
-                if &p2 != p1 {
-                    return (Some((format!("[mangled, re-printed plainly] not a fixpoint: first print {:?}, second print {:?}", p1, p2), "second print == first print".into())), shape);
-                }
+                return (Some((format!("[mangled, re-printed plainly] not a fixpoint: first print {:?}, second print {:?}", p1, p2), "second print == first print".into())), shape);
             }
         }
         // (c), not under K6, and not under K4 for the mangled text
         if shape.adjacent_text || (mangling && shape.has_for) { continue; }
-        let code2 = gen_code(&g2);
+        let code2 = canon(&gen_code(&g2));
         if code2 != code1 {
             return (Some((format!("[{}] printed as {:?}; generated code differs: {}", label, p1, first_diff(&code2, &code1)), "generated code of parse(print(parse(t))) identical to that of parse(t)".into())), shape);
         }
@@ -219,29 +249,35 @@ fn check_caught(src: &str) -> (Option<(String, String)>, Shape) {
 // pools
 // ---------------------------------------------------------------------------------------------------------------
 
-/// inputs known to break the property on the unmodified compiler (K1..K10 of the header); only with VX_STRFYRT_KNOWN=1
-const KNOWN: &[&str] = &[
-    "&#123;{x}}", "&#123;&#123;x}}",                                   // K1
-    "{{ 'a' + b }}", "{{ a + 'b' }}", "<view title=\"{{ 'x' + a }}\"/>", // K2
-    "<view>{{ ' ' }}</view>", "{{ 'a' }}", "{{ '' }}",                 // K3
-    "<block wx:for=\"{{l}}\">{{item}}</block>",                        // K4 (only without the narrowing)
-    "<wxs module=\"m\">var s = \"</wxsa\"</wxs>",                      // K5
-    "x<!-- c -->y", "x</view>y",                                       // K6 (only without the narrowing)
-    "<template name=\"t\"><!-- c --></template>",                      // K7 (only without the narrowing)
-    "<view data-=\"d\"/>",                                             // K8 (only without the narrowing)
-    "{{ (1).a }}", "<view title=\"{{ 1 .a }}\"/>", "{{ (1.5).a }}",     // K9
-    "<template is=\"t\" data=v/>",                                     // K10
+/// (K-number, input, needs VX_STRFYRT_STRICT=1 to fail): inputs known to break the property on the compiler at f442e10.
+/// `VX_STRFYRT_STRICT=1 vxreplay STRFYRT run '<input>'` exits 1 for every one of them.  Enumerated by `search` only with
+/// VX_STRFYRT_KNOWN=1.
+const KNOWN: &[(&str, &str, bool)] = &[
+    ("K3r", "<view>{{ '' }}</view>", false), ("K3r", "{{ '' }}", false), ("K3r", "<view id=\"{{ '' }}\"/>", false),
+    ("K4", "<block wx:for=\"{{l}}\">{{item}}</block>", true),
+    ("K5", "<wxs module=\"m\">var s = \"</wxsa\"</wxs>", false),
+    ("K6", "x<!-- c -->y", true), ("K6", "x</view>y", true),
+    ("K8", "<view data-=\"d\"/>", true),
+    ("K10", "<template is=\"t\" data=v/>", false), ("K10", "<template is=\"t\" data=\"{{ 'x' }}\"/>", false),
+    ("K11", "a&#123;{{b}}", false), ("K11", "<view title=\"a&#123;{{b}}\"/>", false),
+];
+/// former KNOWN inputs of the repaired classes K1, K2, K3, K7, K9: ordinary enumerated inputs now
+const REPAIRED: &[&str] = &[
+    "&#123;{x}}", "&#123;&#123;x}}", "{{ 'a' + b }}", "{{ a + 'b' }}", "<view title=\"{{ 'x' + a }}\"/>", "<view>{{ ' ' }}</view>", "{{ 'a' }}",
+    "<template name=\"t\"><!-- c --></template>", "{{ (1).a }}", "<view title=\"{{ 1 .a }}\"/>", "{{ (1.5).a }}",
 ];
 
 const TEXTS: &[&str] = &[
     "hello", " a b ", "a &lt; b", "x &amp; y", "&amp;lt;", "&amp;amp;", "&amp;quot;q&amp;quot;", "&amp;gt;", "&amp;lt",
     "&amp;nbsp;", "&#38;lt;", "&#x26;#60;", "say \"hi\"", "&quot;", "a > b", "&gt;", "&nbsp;", "&#x41;&#97;", "&#x3c;&#60;",
-    "&lt", "R&D", "&", "it's", "{ {", "a}}b", "line\nbreak", "\u{4e2d}\u{6587}\u{a0}", "<", "1<2", "<-",
+    "&lt", "R&D", "&", "it's", "{ {", "a}}b",
+    // static text that decodes to `{{`, `{{{` (K1, repaired)
+    "&#123;{x}}", "&#123;&#123;x}}", "{&#123;x}}", "&#x7b;&#x7B;&#123;x}}}", "a&#123;&#123;", "&#123;&#123;&#123;", "x&#123;y", "{&#123;{", "{{a}}&#123;&#123;b}}", "line\nbreak", "\u{4e2d}\u{6587}\u{a0}", "<", "1<2", "<-",
 ];
 const BINDS: &[&str] = &[
     "{{a}}", "{{ a.b.c }}", "{{ a[0] }}", "{{a}}{{b}}", "x {{a}} y {{b}} z", "{{a}}&amp;lt;", "&amp;amp;{{a}}", "{{a}}\"{{b}}",
     "{{a}}<", "{{ a ? b : c }}", "{{ a ? '&lt;' : \"<\" }}", "{{ item }}:{{ index }}", "{{ x }}{{ i }}", "{{ m.f(a) }}",
-    "{{ a < b && c > d }}", "{{ {k: a}.k }}", "{{ [a, b][0] }}", "{{}}", "{{ a b }}", "{{ a",
+    "{{ 'a' + b }}", "{{ a + 'b' }}", "{{ 'a' }}", "{{ ' ' }}", "x{{ ' ' }}", "x{{ '' }}y", "{{ (1).a }}", "{{ a < b && c > d }}", "{{ {k: a}.k }}", "{{ [a, b][0] }}", "{{}}", "{{ a b }}", "{{ a",
 ];
 /// elements that do not introduce scopes
 const ELEMS: &[&str] = &[
@@ -286,6 +322,13 @@ const BINOPS: &[&str] = &[
 ];
 const UNOPS: &[&str] = &["!", "-", "+", "~", "typeof ", "void "];
 const EXPRS: &[&str] = &[
+    // user-written `+` chains with string literal operands (K2, repaired)
+    "'a' + b", "a + 'b'", "\"a\" + b", "a + 'b' + c", "'a' + b + 'c'", "a + 1 + 'x'", "'x' + (a + 1)", "('x' + a)", "(a + 'b') + c", "a + ('b' + c)", "'a' + b.c[0]",
+    "'a' + (b ? 'c' : d)", "' ' + a", "a + ' '", "'&lt;' + a + '<'", "'a' + b + c + 'd' + e", "a + '{{'", "'a' + -b", "'a' + !b + 1",
+    // blank string literals as a whole value stay expressions (K3, repaired)
+    "' '", "'  '", "'\\n'", "'\\t '",
+    // member / index / call on number literals (K9, repaired)
+    "(1).a", "1 .a", "(1.5).a", "(1).a.b", "(1).a(2)", "(0x1f).a", "(1e3).a", "(-1).a", "-(1).a", "(1)[0]", "1[0]", "1.5[a]", "(1)(2)", "1(2)", "(1).a + (2).b", "[1][0].a", "(1 + 2).a",
     "a", "a.b", "a[0]", "a[b]", "a[b.c]", "a.b[c].d", "1", "1.5", "0x1f", "1e3", "0", "true", "false", "null", "undefined",
     "1.0", "0.5", ".5", "5.", "1e21", "1e-7", "0.1e2", "123456789012", "9007199254740993", "0777", "0b11", "0o17", "1.5.a", "1..a", "(a).b", "-1", "- 1.5", "a ? 1.50 : -0",
     "a ? '\\n' : '\\\\'", "a ? '\\u4e2d' : '\\x41'", "a ? '\u{4e2d}' : '\u{1F600}'", "a ? 'a\\'b' : \"a\\\"b\"", "[1, 'x', true, null, undefined]", "{1: a, 'b c': d, e_f: g, $h: i}",
@@ -298,6 +341,19 @@ const EXPRS: &[&str] = &[
     "- -a", "-(-a)", "+(+a)", "-(+a)", "+(-a)", "!!a", "~~a", "typeof typeof a", "typeof (a + b)", "(typeof a) + b", "typeof a.b", "void 0", "-a.b", "-a[0]", "-f(a)",
     "a - (b - c)", "a - b - c", "a / (b * c)", "(a, b)", "a + b + c", "a + (b + c)", "a * (b + c)", "a ** b", "a?.b", "a in b", "a = b", "a => b", "new a", "a++", "`t`",
 ];
+/// non-blank, non-empty string literals as a WHOLE value (K3): printed as static text.  Only in LIT_POSITIONS: for event
+/// bindings, change:, the wx:for list and the slot name the static and the dynamic form of the attribute are compiled by
+/// different code paths (dynamic-listener flag, change listener only for dynamic values, update-path arguments),
+/// equal in behaviour for a constant but not in text, so oracle (c) cannot compare them.
+const LIT_VALUES: &[&str] = &["'a'", "\"a\"", "' a '", "'<'", "'&lt;'", "'&amp;lt;'", "'a\"b'", "'it\\'s'", "'{{'", "'{{{x}}'", "'}}'", "'{'", "'\u{a0}'", "'</view>'"];
+/// indices into POSITIONS
+const LIT_POSITIONS: &[usize] = &[0, 1, 2, 3, 4, 5, 7, 8, 10];
+fn literal_value_compiled_differently(host: &str, name: &str) -> bool {
+    ["bind", "catch", "capture-", "mut-bind", "change:"].iter().any(|p| name.starts_with(p)) || name == "wx:for"
+        || (host == "slot" && name == "name")
+        || (host.starts_with("template is") && name == "data") // K10: printed as static text, which the parser drops
+}
+
 /// value positions; `@` is the expression, the second field is the quote character that must not occur in it
 const POSITIONS: &[(&str, char)] = &[
     ("<view>{{ @ }}</view>", '\0'), ("<view>x {{ @ }} y{{b}}</view>", '\0'), ("<view title=\"{{ @ }}\"/>", '"'), ("<view title='{{@}}'/>", '\''),
@@ -320,6 +376,7 @@ const ATTR_NAMES: &[&str] = &[
 const ATTR_VALUES: &[&str] = &[
     "", "=\"\"", "=\"v\"", "='v'", "=v", "=\"{{v}}\"", "={{v}}", "=\"a {{v}} b\"", "=\"{{v}}{{w}}\"", "=\"a&quot;b\"", "='a\"b'", "=\"a'b\"", "=\"&amp;lt;\"", "=\"&lt;\"",
     "=\"<\"", "=\">\"", "=\"&amp;\"", "=\"&\"", "=\"{{ v ? 'a' : 'b' }}\"", "='{{ v ? \"a\" : \"b\" }}'", "=\" \"", "=\"a\nb\"", "=\"{{v}}&amp;quot;\"", "=\"v",
+    "=\"&#123;{x}}\"", "=\"a&#123;&#123;&#123;\"", "=\"{{ 'x' }}\"", "=\"{{ ' ' }}\"", "=\"{{ 'x' + v }}\"",
 ];
 
 const GLOBALS: &[&str] = &[
@@ -364,7 +421,7 @@ fn fill(container: &str, x: &str) -> String { container.replace('@', x) }
 fn corpus() -> Corpus {
     let mut c = Corpus { list: vec![], seen: HashSet::new(), families: vec![] };
     if std::env::var("VX_STRFYRT_KNOWN").is_ok() {
-        for k in KNOWN { c.add(k.to_string()); }
+        for (_, k, _) in KNOWN { c.add(k.to_string()); }
         c.close("known");
     }
     let leaves: Vec<&str> = TEXTS.iter().chain(BINDS).chain(ELEMS).chain(SCOPE_DECLS).chain(SCOPE_USES).copied().collect();
@@ -372,6 +429,7 @@ fn corpus() -> Corpus {
     let small: Vec<&str> = leaves.iter().copied().step_by(5).chain(["&amp;lt;", "{{a}}{{item}}{{x}}", "<child slot:a/>{{a}}<child slot:b>{{b}}{{a}}</child>"]).collect();
 
     // the shortest inputs of every family first, so that a witness is small
+    for r in REPAIRED { c.add(r.to_string()); }
     for l in &leaves { c.add(l.to_string()); }
     for d in SCOPE_DECLS { for u in SCOPE_USES { c.add(format!("{}{}", d, u)); } }
     for e in EXPRS { c.add(fill(POSITIONS[0].0, e)); }
@@ -404,6 +462,7 @@ fn corpus() -> Corpus {
     // attr
     for (open, close) in ATTR_HOSTS { for n in ATTR_NAMES { for v in ATTR_VALUES {
         if open.starts_with("template is") && *n == "data" && *v == "=v" { continue; } // K10
+        if *v == "=\"{{ 'x' }}\"" && literal_value_compiled_differently(open, n) { continue; }
         c.add(format!("<{} {}{}/>", open, n, v));
         c.add(format!("<{} {}{}>{{{{v}}}}</{}>{{{{v}}}}", open, n, v, close));
     } } }
@@ -421,6 +480,7 @@ fn corpus() -> Corpus {
     }
     for u in UNOPS { for v in UNOPS { for e in ["#$a", "#($a)", "#$a.b", "(#a).b", "#a ? b : c", "#(a ? b : c)"] { exprs.push(e.replace('#', u).replace('$', v)); } } }
     for (p, q) in POSITIONS { for e in &exprs { if !e.contains(*q) { c.add(fill(p, e)); } } }
+    for i in LIT_POSITIONS { let (p, q) = POSITIONS[*i]; for e in LIT_VALUES { if !e.contains(q) { c.add(fill(p, e)); } } }
     for o1 in BINOPS { for o2 in BINOPS { for shape in ["a 1 b 2 c", "(a 1 b) 2 c", "a 1 (b 2 c)"] {
         let e = shape.replace('1', o1).replace('2', o2);
         c.add(format!("<view>{{{{ {} }}}}</view>", e));
@@ -468,13 +528,12 @@ pub fn search() -> Outcome {
     let all = std::env::var("VX_STRFYRT_ALL").is_ok();
     let c = corpus();
     let mut first: Option<Outcome> = None;
-    let (mut count, mut k4, mut k6, mut k7, mut k8) = (0u64, 0u64, 0u64, 0u64, 0u64);
+    let (mut count, mut k4, mut k6, mut k8) = (0u64, 0u64, 0u64, 0u64);
     for t in &c.list {
         count += 1;
         let (r, shape) = check_caught(t);
         k4 += shape.has_for as u64;
         k6 += shape.adjacent_text as u64;
-        k7 += shape.comment_only_def as u64;
         k8 += shape.empty_data_name as u64;
         if let Some((got, want)) = r {
             if all { eprintln!("FAIL {:?}\n     {}", t, got); }
@@ -482,7 +541,7 @@ pub fn search() -> Outcome {
             if !all { break; }
         }
     }
-    let narrowed = format!("; narrowed inputs: {} with wx:for (no mangled code oracle), {} with adjacent text siblings (no code oracle), {} with a comment-only <template name> (no fixpoint oracle), {} with an empty data- name (skipped)", k4, k6, k7, k8);
+    let narrowed = format!("; narrowed inputs: {} with wx:for (no mangled code oracle), {} with adjacent text siblings (no code oracle), {} with an empty data- name (skipped)", k4, k6, k8);
     first.unwrap_or_else(|| Outcome::none(count, &(bound(&c) + &narrowed)))
 }
 
